@@ -742,10 +742,13 @@ def cloopLoop (run : St → Res) (ls : CLoopSpec) : Nat → Int → Int → Nat 
         let rb : Res := { rb0 with st := { rb0.st with c := { rb0.st.c with chQB := qb } } }
         if ls.cntOp == .inc || ls.cntOp == .dec then
           let v' := stepVal ls.cntOp v
+          -- an iteration that ended without an error of its own clears what a tag of its body merely LEFT in
+          -- `ctx.Err` (repair: a modifier that failed in a print tag is not fatal, but the loop node used to return
+          -- its error after the last iteration, and a loop around this one ended after one iteration)
           match iterAfterBody rb with
           | .abort st => ⟨n+1, st, true⟩
-          | .stop st => ⟨n+1, { st with c := st.c.setStatic ls.cnt (.int v') }, false⟩
-          | .next st => cloopLoop run ls f v' lim (n+1) { st with c := st.c.setStatic ls.cnt (.int v') }
+          | .stop st => ⟨n+1, { st with c := { st.c.setStatic ls.cnt (.int v') with err := none } }, false⟩
+          | .next st => cloopLoop run ls f v' lim (n+1) { st with c := { st.c.setStatic ls.cnt (.int v') with err := none } }
         else
           match iterAfterBody rb with
           | .abort st => ⟨n+1, st, true⟩
@@ -847,7 +850,9 @@ def rloopWith (run : St → Res) (runElse : Option (St → Res)) (ls : RLoopSpec
 def rloopQB (run : St → Res) (runElse : Option (St → Res)) (ls : RLoopSpec) (s : St) : Res :=
   match cmpPath s.c.vars s.c.chQB ls.src with
   | none => ok { s with c := { s.c with err := some .unknownType } }
-  | some p => rloopWith run runElse { ls with src := p } s
+  -- `ctx.Err = nil` first (repair: a range loop over an unset variable without an else branch used to hand an
+  -- error that an EARLIER tag — or an earlier render on the same context — had left there to its caller)
+  | some p => rloopWith run runElse { ls with src := p } { s with c := { s.c with err := none } }
 
 /-- What a loop node returns when `ctx.Err` is set after the loop: the error; a break / continue signal left
     there by the for-else branch is handed to the parent loop and cleared (repair). -/
